@@ -371,6 +371,17 @@ def r15_2(chk, mod):
             for a in find_atoms(r.value, lambda a: a[0] == "ite"):
                 if "fullmatch" in a[1].key() and "\\d" in a[1].key() and call_name(a[2].as_atom() or ()) == "int" and "groups()[0]" in a[2].key():
                     int_guarded = True
+    # ... and the text tested for "digits only" is the text that is converted (the number without its uncertainty), not the whole item
+    def tested_text(c):
+        for a in find_atoms(c, lambda a: a[0] == "call" and (call_name(a) or "").endswith("fullmatch") and len(a[2]) == 2):
+            return a[2][1].key()
+        return None
+    for e in int_calls:
+        conv = e.extra["args"][0].key() if e.extra.get("args") else None
+        for c, pol in e.guards:
+            tt = tested_text(c) if pol and "fullmatch" in c.key() and "\\d" in c.key() else None
+            if tt is not None and conv is not None and tt != conv:
+                int_guarded = False
     via_float = any("float" in str(e.extra.get("args", [""])[0]) or "number" == str(e.extra.get("args", [""])[0]) for e in int_calls)
     chk.ob("R15.2", MOD, q, "value types are kept: the result is an int only when the text is digits only (a float such as '2.0' stays a float, "
            "integers are converted from the text, not through float)", not coerces and int_guarded and not via_float, fingerprint="number-type",
